@@ -189,8 +189,18 @@ def run_harness(cfg, binp, tier, seed, work, replay_ops=None, extra_args=()):
     env.setdefault('ASAN_OPTIONS', 'detect_leaks=0:abort_on_error=0')
     env.setdefault('UBSAN_OPTIONS', 'print_stacktrace=1')
     t0 = time.time()
-    p = subprocess.run(cmd, capture_output=True, text=True, env=env, cwd=work,
-                       timeout=cfg['harness'].get('timeout', 3000))
+    limit = cfg['harness'].get('timeout_thorough', 3000) if tier == 'thorough' else cfg['harness'].get('timeout', 900)
+    try:
+        p = subprocess.run(cmd, capture_output=True, text=True, env=env, cwd=work, timeout=limit)
+    except subprocess.TimeoutExpired as e:
+        # a harness that does not finish is a result (the implementation hangs or crawls on some case):
+        # the partially written protocol files name the case it was working on
+        tail = ''
+        for part in (e.stdout, e.stderr):
+            if part:
+                tail += part if isinstance(part, str) else part.decode('utf-8', 'replace')
+        return {'rc': 124, 'out': out, 'stderr': ('TIMEOUT: harness did not finish within %d s\n' % limit) + tail[-3000:],
+                'wall': time.time() - t0}
     return {'rc': p.returncode, 'out': out, 'stderr': (p.stdout + p.stderr)[-4000:], 'wall': time.time() - t0}
 
 
@@ -474,7 +484,8 @@ def run_check(prop, tier, seed, replay=None):
         except OSError:
             pass
         add_violation({'property': prop, 'kind': 'counterexample', 'header': last[0] if last else None,
-                       'ops': last[1] if last else [], 'violated': 'implementation aborted under the harness (sanitizer / crash)',
+                       'ops': last[1] if last else [], 'violated': ('implementation did not finish under the harness (hang / timeout)' if hres['rc'] == 124
+                                    else 'implementation aborted under the harness (sanitizer / crash)'),
                        'stderr': hres['stderr'][-3000:], 'seed': seed, 'tier': tier})
     elif harness_err and not new_fails:
         add_violation({'property': prop, 'kind': 'broken-obligation', 'obligation': 'harness build against /repo',
